@@ -55,6 +55,18 @@ def generate(rng, tier):
         flat = sc.gen_static(rng, n_leaves=rng.randint(2, 6), nest_depth=0, faults=False,
                              tocks=rng.choice(["any", "dyadic", "any"]), limit_p=0.5)
         nested = group(rng, flat, depth=rng.choice([1, 2, 3]))
+        # histories: the same doer objects run again on the same Doist or under NEW Doists (tyme restarts)
+        if not c03.asap_then_positive(nested, only_nested=True) and rng.random() < 0.35:
+            if rng.random() < 0.4:
+                sc.add_reruns(rng, flat)
+                nested["again"] = copy.deepcopy(flat["again"])
+                if flat.get("ctor"):
+                    nested["ctor"] = True
+            else:
+                fr = [{"limit": flat["limit"] if rng.random() < 0.5 else None, "tyme": rng.choice([0.0, 0.0, 0.5, 20.0])}
+                      for _ in range(rng.choice([1, 1, 2]))]
+                flat["fresh"] = fr
+                nested["fresh"] = copy.deepcopy(fr)
         out.append({"flat": flat, "nested": nested})
     return out
 
